@@ -94,6 +94,16 @@ MUTATIONS = [
     ("dask_expr/_expr.py", "    # dependencies of fused groups behind their back\n    expr = expr.lower_completely()\n", "    # dependencies of fused groups behind their back\n", "vf.contracts.drivers:OptimizeUntil", "pre:optimize_blockwise_fusion:plan-is-fully-lowered"),
     ("dask_expr/_expr.py", "    # Lower\n    expr = expr.lower_completely()\n    if stage == \"physical\":\n        return expr", "    # Lower\n    expr = expr.lower_once()\n    if stage == \"physical\":\n        return expr", "vf.contracts.drivers:OptimizeUntil", "post:physical-stages-return-fully-lowered-plans"),
     ("dask_expr/_expr.py", "    result = expr\n    if stage == \"logical\":\n        return result\n", "    current = expr\n    if stage == \"logical\":\n        return current\n    result = current\n", "vf.contracts.drivers:OptimizeUntil", None),
+    # join legality of filter pushdown (C03 / C01)
+    ("dask_expr/_merge.py", "                return self.how in (\"left\", \"inner\", \"leftsemi\")\n", "                return self.how in (\"left\", \"inner\", \"leftsemi\", \"outer\")\n", "vf.contracts.filters:FilterPassthroughAvailable", "post:available-only-if"),
+    ("dask_expr/_merge.py", "                return self.how in (\"right\", \"inner\")\n", "                return self.how in (\"right\", \"inner\", \"left\")\n", "vf.contracts.filters:FilterPassthroughAvailable", "post:available-only-if"),
+    ("dask_expr/_merge.py", "            ) and not self._renamed_by_suffix(predicate_columns, \"left\"):\n", "            ):\n", "vf.contracts.filters:FilterPassthroughAvailable", "post:available-only-if"),
+    ("dask_expr/_merge.py", "            if predicate_columns is None:\n                return False\n", "            if predicate_columns is None:\n                return True\n", "vf.contracts.filters:FilterPassthroughAvailable", "post:available-only-if"),
+    ("dask_expr/_merge.py", "            while isinstance(predicate, And):\n                predicate = predicate.left\n", "            while isinstance(predicate, And):\n                predicate = predicate.right\n", "vf.contracts.filters:FilterPassthroughAvailable", "inv-preserved:loop0"),
+    ("dask_expr/_merge.py", "                if right_suffix != \"\" and any(\n                    f\"{col}{right_suffix}\" in self.columns and col in self.left.columns", "                if right_suffix != \"\" and any(\n                    f\"{col}{left_suffix}\" in self.columns and col in self.left.columns", "vf.contracts.filters:MergeFilterPushdown", "post:an-input-is-filtered-only-where"),
+    ("dask_expr/_merge.py", "            if predicate_cols and predicate_cols.issubset(self.right.columns):\n                if right_suffix != \"\" and any(", "            if predicate_cols and not predicate_cols.issubset(self.left.columns):\n                if right_suffix != \"\" and any(", "vf.contracts.filters:MergeFilterPushdown", "post:an-input-is-filtered-only-where"),
+    ("dask_expr/_merge.py", "        suffix = self.suffixes[0] if side == \"left\" else self.suffixes[1]\n", "        suffix = self.suffixes[1] if side == \"left\" else self.suffixes[0]\n", "vf.contracts.filters:RenamedBySuffix", "post:true-iff"),
+    ("dask_expr/_merge.py", "            predicate_cols = self._predicate_columns(parent.predicate)\n            new_left, new_right = self.left, self.right\n", "            predicate_cols = self._predicate_columns(parent.predicate)\n            kept_left, kept_right = self.left, self.right\n            new_left, new_right = kept_left, kept_right\n", "vf.contracts.filters:MergeFilterPushdown", None),
     # harmless edits: renamed local, reordered independent statements, extra statement
     ("dask_expr/_expr.py", "        new_divisions = []\n        for part in self._partitions:\n            new_divisions.append(full_divisions[part])\n        new_divisions.append(full_divisions[part + 1])\n        return tuple(new_divisions)", "        picked = []\n        for part in self._partitions:\n            picked.append(full_divisions[part])\n        picked.append(full_divisions[part + 1])\n        return tuple(picked)", "vf.contracts.partitions:PFDivisions", None),
     ("dask_expr/_repartition.py", "        npartitions = self.new_partitions\n        npartitions_input = self.frame.npartitions\n", "        npartitions_input = self.frame.npartitions\n        npartitions = self.new_partitions\n", "vf.contracts.repartition:FewerBoundaries", None),
